@@ -89,7 +89,7 @@ def run(tier, replay=None):
         fam[s["meta"]["family"]] = fam.get(s["meta"]["family"], 0) + 1
         r = res[s["scn"]]; key = r["ref"] + (":" + r["class"] if r["class"] else ""); cls[key] = cls.get(key, 0) + 1
     mutants = len(set((s["wrap"], bytes(s["inp"])) for s in scns))
-    cov = {"evaluations": len(scns), "distinct_nontrivial": sum(1 for s in scns if res[s["scn"]]["ref"] != "Valid"), "distinct_byte_strings": mutants, "calls": calls,
+    cov = {"evaluations": len(scns), "distinct_nontrivial": sum(1 for s in scns if res[s["scn"]]["ref"] != "Valid"), "distinct_byte_strings": mutants, "calls": calls, "state_machine_conformance": igz.inflate_conformance(res),
            "families": fam, "spec_classification": cls, "tlc_wall_s": round(tw, 1),
            "rule": "parents = short generated streams (<=64/96 B) in raw/gzip/zlib (+NO_HDR_VER in thorough) form; EVERY truncation and EVERY single-bit flip (stride-sampled in quick for wrapped forms), byte substitutions, grammar-level single faults "
                    "(BTYPE=3, LEN/NLEN, over-subscribed lit/len and code-length sets, missing EOB code, repeat-16 first, repeat past end, distance symbol 30, lit/len 286, distance beyond output, gzip/zlib header and trailer faults) with the documented class, random byte strings; "
